@@ -47,10 +47,15 @@ func runCLI(c Case) string {
 		p := filepath.Join(dir, "in.pql")
 		os.WriteFile(p, []byte(input), 0o644)
 		args = []string{p}
-	case mode == "outfile":
+	case mode == "outfile", mode == "outfileP":
 		stdin = []byte(input)
 		outPath = filepath.Join(dir, "out.sql")
 		args = []string{"-o", outPath}
+		if mode == "outfileP" {
+			// the output file already exists and holds MORE than this run will write (the result of an earlier,
+			// longer run): what the tool leaves in the file is this run's output, nothing else
+			os.WriteFile(outPath, []byte(strings.Repeat("SELECT * FROM \"earlier\" WHERE \"run\" > 1;\n\n", 400)), 0o644)
+		}
 	case strings.HasPrefix(mode, "filesM:"):
 		// filesM:k  two pieces with k EMPTY files between them (bufio.Scanner gives up after 100
 		// consecutive reads that return no data and no error: the multi-reader must not produce them)
@@ -229,9 +234,9 @@ func genCLICases(tier string, emit func(op string, fields ...string)) {
 		"let a = 1;\nlet a = bad;\nT | take a;\n", "T | count;\nlet x = 1\n", "T | bogus;\nU | count", "T | count;\nU | bogus", "letter | count;\nlet\tx = 2;\nT | take x;",
 		"T | count; // trailing\n", "// only\n// comments\n", "let a = 1; let b = a; T | where x == b; U | take b",
 	}
-	modes := []string{"stdin", "stdin", "file", "files:2", "files:3", "outfile", "filesE:2", "filesD:3", "filesD:2", "files:7"}
+	modes := []string{"stdin", "stdin", "file", "files:2", "files:3", "outfile", "outfileP", "filesE:2", "filesD:3", "filesD:2", "files:7"}
 	for _, s := range corpus {
-		for _, m := range []string{"stdin", "file", "files:2", "filesE:2", "filesD:2"} {
+		for _, m := range []string{"stdin", "file", "files:2", "filesE:2", "filesD:2", "outfileP"} {
 			emit("CLI", hexs(s), m)
 		}
 	}
